@@ -2,7 +2,7 @@
    The chain is  TypeScript type --frontend--> IR --print_runtype--> validator tree --validate--> answer.
    Theorems here are about the last two steps (Model/Printer.v, Model/Validate.v) against the meaning of the IR
    (rmember, Model/Ir.v); the frontend is judged by a reference membership on generated programs (see DESIGN.md). *)
-From Beff Require Import Model.Printer Proofs.C01 Proofs.C01Print.
+From Beff Require Import Model.Printer Proofs.C01 Proofs.C01Print Proofs.C01Union.
 
 (* the two compile-time dispatch optimisations accept exactly what the plain union of their members accepts *)
 Theorem C01_literal_set_dispatch_is_union :
@@ -33,6 +33,31 @@ Theorem C01_printed_validator_means_the_IR :
       a = b.
 Proof. exact print_plain_correct. Qed.
 
+(* a union every flattened member of which is a literal (through references and nested unions) is printed as one literal-set
+   dispatch; that validator answers what the union means, for every value (the listed literals being no NaN) *)
+Theorem C01_literal_union_validator_means_the_union :
+  forall F env prefer renv' f vs cs k1 k2 v a b,
+    print env prefer (S f) (IAnyOf vs) = Ok (RAnyOfConsts cs) ->
+    forallb cst_not_nan cs = true ->
+    rmember F env k1 (IAnyOf vs) v = Ok a ->
+    validate F renv' k2 false (RAnyOfConsts cs) v = Ok b ->
+    a = b.
+Proof. exact consts_dispatch_means_the_union. Qed.
+Definition lit_env : ienv := [("L", IAnyOf [ITpl [TplConst "x"]; IConst (ICNum (NInt 2))])].
+Definition lit_union : ir := IAnyOf [IRef "L"; IConst (ICBool true); ITpl [TplConst "x"]].
+Example C01_literal_union_nonvacuous :
+  exists cs, print lit_env [] 10 lit_union = Ok (RAnyOfConsts cs) /\ forallb cst_not_nan cs = true /\ List.length cs = 3.
+Proof. eexists. repeat split; vm_compute; reflexivity. Qed.
+
+(* outside that fragment, refuted on the faithful model (listed finding short_tuple_padded_with_undefined): the validator of
+   [string, number | undefined] accepts the one-element array ["a"], which is not a member of the tuple type *)
+Definition short_tuple : ir := ITuple [IString; IAnyOf [INumber; IUndefined]] None.
+Theorem C01_refuted_for_short_tuples :
+  exists r, print [] [] 10 short_tuple = Ok r /\
+            validate {| sfmt := fun _ => None; nfmt := fun _ => None |} [] 10 false r (VArr [VStr "a"]) = Ok true /\
+            rmember {| sfmt := fun _ => None; nfmt := fun _ => None |} [] 10 short_tuple (VArr [VStr "a"]) = Ok false.
+Proof. eexists. repeat split; vm_compute; reflexivity. Qed.
+
 (* non-vacuity: a recursive object type with optional properties, arrays, Map and plain unions *)
 Definition ex_ienv : ienv :=
   [("T", IObject [("next", (false, IRef "T")); ("t", (true, IArray (IAnyOf [IString; INumber])));
@@ -50,3 +75,5 @@ Proof. eexists. eexists. repeat split; vm_compute; reflexivity. Qed.
 Print Assumptions C01_literal_set_dispatch_is_union.
 Print Assumptions C01_discriminator_dispatch_is_union.
 Print Assumptions C01_printed_validator_means_the_IR.
+Print Assumptions C01_literal_union_validator_means_the_union.
+Print Assumptions C01_refuted_for_short_tuples.
